@@ -486,6 +486,7 @@ theorem step_gw (st : State) (op : Op) (hne : ∀ c i sa p, op ≠ .execute c i 
       · rfl
       · rfl
     · rfl
+  | upgradeMigrate au => rw [step_upgradeMigrate_fst]
 
 /-- a delivery either fails (state unchanged) or consumes its approval -/
 theorem step_execute (st : State) (c i sa p : Bytes) :
